@@ -254,6 +254,7 @@ pub fn get(prop: &str, tier: &str) -> Option<Check> {
                 Batch { name: "tls_grid_server", f: scen::tls::run_server_grid, cfg: cfg(Mode::Racy, false, 0), runs: n(600, 30_000), real: REAL_TLS, stub: STUB_TLS },
                 Batch { name: "tls_server_history", f: scen::tls::run_server_history, cfg: cfg(Mode::Racy, false, 0), runs: n(600, 30_000), real: REAL_TLS, stub: STUB_TLS },
                 Batch { name: "ffi_server_tls_authz", f: scen::ffi::run_server_tls_authz, cfg: cfg(Mode::Racy, false, 0), runs: n(800, 40_000), real: REAL_FFI, stub: STUB_FFI },
+                Batch { name: "e2e_tls_authz", f: scen::e2e::run_tls_authz, cfg: cfg(Mode::Racy, true, 0), runs: n(2_000, 60_000), real: REAL_E2E, stub: STUB_E2E },
             ],
             assumptions: vec!["role strings are those of the committed fixture certificates (no hook is used to inject arbitrary roles)", "the authorization policy is a pure function implemented by the harness"],
         },
